@@ -3,6 +3,7 @@
 package c11
 
 import (
+	"fmt"
 	"sync/atomic"
 	"time"
 
@@ -30,6 +31,7 @@ type task struct {
 	lastSite string
 	pending  bool // pushed senders not yet reconciled
 	yields   int
+	fin      atomic.Bool
 }
 
 // chooser decides, at a scheduling point, which runnable task continues.
@@ -96,15 +98,22 @@ type sched struct {
 	ch       chooser
 	progress atomic.Int64 // bumped at every scheduling step; read by parked tasks' watchdogs
 	blocked  atomic.Bool  // the code under test blocked on a lock: tasks were released to run freely
-	left     atomic.Int32 // tasks not yet finished (used once blocked)
-	step     int
-	switches int
-	main     chan struct{}
-	tr       *core.Trace
-	rec      []Switch // the switches actually taken
-	aborted  bool
-	probes   map[string]int
-	sites    map[string]int
+	// set (before blocked) when, at the moment the running task blocked, every other task that had
+	// started was waiting inside its own store call: the block is then not an artefact of parking
+	// a task in the middle of interpreter code, it is one run unable to proceed while another run
+	// waits for its store -- which a slow store, or a store that answers run B first, produces in
+	// any real deployment
+	blockedOnStore string
+	diag           atomic.Bool
+	left           atomic.Int32 // tasks not yet finished (used once blocked)
+	step           int
+	switches       int
+	main           chan struct{}
+	tr             *core.Trace
+	rec            []Switch // the switches actually taken
+	aborted        bool
+	probes         map[string]int
+	sites          map[string]int
 }
 
 func newSched(ch chooser, tr *core.Trace) *sched {
@@ -174,8 +183,8 @@ func (s *sched) yield(site string) {
 
 // park waits to be scheduled again. If nothing at all happens for the watchdog
 // period the running task must be blocked (the scheduler's yield points are
-// dense: every statement): all parked tasks are released to run freely so that
-// whoever holds the lock can finish, and the case is abandoned.
+// dense: every statement): a diagnosis goroutine finds out on whom it waits and
+// releases everybody so that whoever holds the lock can finish; the case is abandoned.
 func (s *sched) park(t *task) {
 	for {
 		seen := s.progress.Load()
@@ -183,24 +192,70 @@ func (s *sched) park(t *task) {
 		case <-t.wake:
 			return
 		case <-time.After(blockWatchdog):
-			if s.blocked.Load() {
-				return
+			if s.diag.Load() {
+				continue // the diagnosis wakes every task when it is done
 			}
-			if s.progress.Load() == seen {
-				s.blocked.Store(true)
-				for _, o := range s.tasks {
-					select {
-					case o.wake <- struct{}{}:
-					default:
-					}
-				}
-				return
+			if s.progress.Load() == seen && s.diag.CompareAndSwap(false, true) {
+				go s.diagnose(seen)
 			}
 		}
 	}
 }
 
+// diagnose runs once the running task has made no step for a watchdog period. It first
+// confirms that over a much longer period, then releases only the tasks that are parked inside
+// a store call (the store seam holds nothing of the interpreter's: it parks exactly where a
+// real store would be waiting for its database). If that alone lets the blocked task finish,
+// the block was one run unable to proceed while another run waits for its store -- which a slow
+// store, or a store that answers the later run first, produces in any real deployment, and
+// which never ends if the store's answer depends on the blocked run (re-entrant use).
+// Otherwise the block is an artefact of parking a task in the middle of interpreter code
+// that holds a lock: no verdict. Either way all tasks are then released to run freely.
+func (s *sched) diagnose(seen int64) {
+	for k := 0; k < 8; k++ {
+		time.Sleep(blockWatchdog / 4)
+		if s.progress.Load() != seen {
+			s.diag.Store(false) // merely slow
+			return
+		}
+	}
+	cur := s.cur
+	var waiters []*task
+	desc := ""
+	for _, o := range s.tasks {
+		if o == cur || o.fin.Load() || !o.started {
+			continue
+		}
+		if len(o.lastSite) > 6 && o.lastSite[:6] == "store." {
+			waiters = append(waiters, o)
+			desc += fmt.Sprintf("task %d waits in %s; ", o.id, o.lastSite)
+		}
+	}
+	s.blocked.Store(true) // from here on yields are no-ops
+	if cur != nil && len(waiters) > 0 {
+		for _, o := range waiters {
+			select {
+			case o.wake <- struct{}{}:
+			default:
+			}
+		}
+		for k := 0; k < 600 && !cur.fin.Load(); k++ {
+			time.Sleep(5 * time.Millisecond)
+		}
+		if cur.fin.Load() {
+			s.blockedOnStore = desc + fmt.Sprintf("task %d (last seen at %s) could not proceed until they were answered", cur.id, cur.lastSite)
+		}
+	}
+	for _, o := range s.tasks {
+		select {
+		case o.wake <- struct{}{}:
+		default:
+		}
+	}
+}
+
 func (s *sched) exit(t *task) {
+	t.fin.Store(true)
 	if s.blocked.Load() {
 		if s.left.Add(-1) == 0 {
 			s.main <- struct{}{}
